@@ -334,16 +334,6 @@ class MibCompiler(object):
 
                         parsedMibs[mibInfo.name] = fileInfo, mibInfo, mibTree
 
-                        if sourceFailed:
-                            sourceFailed = False
-
-                            del failedMibs[mibname]
-
-                            # an earlier source failed on this MIB, this one
-                            # did not: forget the failure report as well
-                            if processed.get(mibname) == statusFailed:
-                                del processed[mibname]
-
                         if mibInfo.name in failedMibs:
                             # this module could not be had before: asked for
                             # by its own name, or a broken copy of it precedes
@@ -380,7 +370,7 @@ class MibCompiler(object):
 
                     if sourceFailed:
                         # an earlier source failed on this name, this one
-                        # answers it with modules that are known already
+                        # did not: forget the failure report
                         del failedMibs[mibname]
 
                         if processed.get(mibname) == statusFailed:
